@@ -1,12 +1,171 @@
 /-
-  C02 — property theorems only; helper lemmas live in Nutree/Lemmas.
+  C02 — the data-id index answers the queries exactly (from the invariant `WF`).
+  Property theorems only; helper lemmas live in Nutree/Lemmas (Queries, Registry, WFAdd).
 -/
 import Nutree.Model.Ops
 import Nutree.Spec.WF
+import Nutree.Model.Search
+import Nutree.Lemmas.Queries
+import Nutree.Properties.C01
 namespace Nutree.C02
-open Nutree T
+open Nutree T Nutree.Search
 
-/-- placeholder obligation until the theorems of this property land: the empty tree satisfies the decidable check. -/
+/-- the empty tree satisfies the decidable check. -/
 theorem init_ok : wfB ({} : Tree) = true := by decide
+
+/-- the index as the queries of Model/Search.lean see it: data_id ↦ node values -/
+def indexOf (t : Tree) : Index := t.byData.map fun e => (e.1, e.2.filterMap fun i => findT i t.root)
+
+theorem indexOf_eq (t : Tree) : indexOf t = nodeIndex t := rfl
+
+/-- `find_all(data_id=)` returns exactly the reachable nodes carrying the id -/
+theorem findAll_exact (t : Tree) (h : WF t) (d : DataId) (x : T) :
+    x ∈ treeFindAllId (indexOf t) d none ↔ (x ∈ T.flatL t.root.kids ∧ x.did = d) :=
+  mem_findAll h
+
+/-- … each of them once -/
+theorem findAll_nodup (t : Tree) (h : WF t) (d : DataId) : ((treeFindAllId (indexOf t) d none).map T.id).Nodup :=
+  findAll_ids_nodup h d
+
+/-- `find_first(data_id=)`: a reachable node with the id, `None` iff there is none -/
+theorem findFirst_exact (t : Tree) (h : WF t) (d : DataId) :
+    (∀ x, treeFindFirstId (indexOf t) d = some x → x ∈ T.flatL t.root.kids ∧ x.did = d) ∧
+    (treeFindFirstId (indexOf t) d = none ↔ ∀ x ∈ T.flatL t.root.kids, x.did ≠ d) := by
+  rw [treeFindFirstId_eq]
+  constructor
+  · intro x hx
+    refine (findAll_exact t h d x).1 ?_
+    cases hl : treeFindAllId (indexOf t) d none with
+    | nil => rw [hl] at hx; cases hx
+    | cons a l => rw [hl] at hx; cases hx; exact List.mem_cons_self
+  · rw [List.head?_eq_none_iff]
+    constructor
+    · intro hnil x hx hd
+      have := (findAll_exact t h d x).2 ⟨hx, hd⟩
+      rw [hnil] at this; cases this
+    · intro hall
+      cases hl : treeFindAllId (indexOf t) d none with
+      | nil => rfl
+      | cons a l =>
+        have := (findAll_exact t h d a).1 (by rw [hl]; exact List.mem_cons_self)
+        exact absurd this.2 (hall a this.1)
+
+/-- `data in tree` -/
+theorem contains_iff (t : Tree) (h : WF t) (d : DataId) :
+    contains (indexOf t) d = true ↔ ∃ x ∈ T.flatL t.root.kids, x.did = d := by
+  unfold contains
+  cases hf : treeFindFirstId (indexOf t) d with
+  | none =>
+    have := (findFirst_exact t h d).2.1 hf
+    simp only [Option.isSome_none, Bool.false_eq_true, false_iff]
+    rintro ⟨x, hx, hd⟩
+    exact this x hx hd
+  | some x =>
+    have := (findFirst_exact t h d).1 x hf
+    simp only [Option.isSome_some, true_iff]
+    exact ⟨x, this.1, this.2⟩
+
+/-- `max_results` cuts the result -/
+theorem findAll_limit (t : Tree) (d : DataId) (k : Nat) :
+    treeFindAllId (indexOf t) d (some (k+1)) = (treeFindAllId (indexOf t) d none).take (k+1) :=
+  treeFindAllId_limit _ d k
+
+/-- clone queries: get_clones(add_self) and is_clone, count_unique -/
+theorem clones_exact (t : Tree) (h : WF t) (x : T) (hx : x ∈ T.flatL t.root.kids) :
+    (∀ y, y ∈ (treeFindAllId (indexOf t) x.did none).filter (fun y => y.id != x.id) ↔
+        (y ∈ T.flatL t.root.kids ∧ y.did = x.did ∧ y.id ≠ x.id)) ∧
+    (decide ((treeFindAllId (indexOf t) x.did none).length > 1) = true ↔
+        ∃ y ∈ T.flatL t.root.kids, y.did = x.did ∧ y.id ≠ x.id) := by
+  have hxm : x ∈ treeFindAllId (indexOf t) x.did none := (findAll_exact t h x.did x).2 ⟨hx, rfl⟩
+  have hnd := findAll_nodup t h x.did
+  constructor
+  · intro y
+    rw [List.mem_filter, findAll_exact t h x.did y]
+    simp only [bne_iff_ne, ne_eq, and_assoc]
+  · rw [decide_eq_true_eq]
+    constructor
+    · intro hlen
+      match hl : treeFindAllId (indexOf t) x.did none, hlen with
+      | a :: b :: l, _ =>
+        rw [hl] at hnd hxm
+        have hab : a.id ≠ b.id := by
+          simp only [List.map_cons, List.nodup_cons, List.mem_cons, not_or] at hnd
+          exact hnd.1.1
+        have ha := (findAll_exact t h x.did a).1 (by rw [hl]; simp)
+        have hb := (findAll_exact t h x.did b).1 (by rw [hl]; simp)
+        by_cases hax : a.id = x.id
+        · exact ⟨b, hb.1, hb.2, fun e => hab (hax.trans e.symm)⟩
+        · exact ⟨a, ha.1, ha.2, hax⟩
+    · rintro ⟨y, hy, hyd, hyx⟩
+      have hym := (findAll_exact t h x.did y).2 ⟨hy, hyd⟩
+      match hl : treeFindAllId (indexOf t) x.did none with
+      | [] => rw [hl] at hxm; cases hxm
+      | [a] =>
+        rw [hl] at hxm hym
+        simp only [List.mem_singleton] at hxm hym
+        exact absurd (by rw [hxm, hym]) hyx
+      | _ :: _ :: _ => simp
+
+/-- `count_unique`: the number of keys is the number of distinct data ids -/
+theorem countUnique_eq (t : Tree) (h : WF t) :
+    t.byData.length = ((T.flatL t.root.kids).map T.did).eraseDups.length := by
+  rw [← List.length_map (·.1)]
+  refine List.Perm.length_eq ((List.perm_ext_iff_of_nodup h.index.keys (nodup_eraseDups _)).2 (fun d => ?_))
+  rw [mem_eraseDups]
+  exact mem_keys_iff h
+
+/-- `count` (`len(tree)`): the number of registered nodes is the number of reachable nodes -/
+theorem count_eq (t : Tree) (h : WF t) : t.byId.length = (T.flatL t.root.kids).length := by
+  rw [h.registry.length_eq, List.length_map]
+
+/-- the hypothesis `NoEmpty` of `C09.getItem_spec` holds for the index of a well-formed state -/
+theorem noEmpty (t : Tree) (h : WF t) : ∀ p ∈ indexOf t, p.2 ≠ [] := by
+  intro p hp
+  obtain ⟨e, he, rfl⟩ := List.mem_map.1 hp
+  cases hl : e.2 with
+  | nil => exact absurd hl (h.index.noEmpty e he)
+  | cons i l =>
+    obtain ⟨y, hy, h1, _⟩ := (h.index.listed e.1 i).1 ⟨e.2, he, by rw [hl]; simp⟩
+    have hf : findT i t.root = some y := by
+      rw [← h1]; exact findT_of_mem h.idsN (mem_flat_of_mem_flatL_kids hy)
+    simp only [List.filterMap_cons, hf]
+    exact List.cons_ne_nil _ _
+
+/-- the data_id rule for added data (explicit id, else the callback, else hash) — from
+`addData_effect` of Nutree.C01 -/
+theorem dataId_rule (t t' : Tree) (next parent : NodeId) (a : Atom) (before : Before) (did? : Option DataId)
+    (kind : Option String)
+    (hr : t.addData next parent a before did? kind = .ok t') (h : WF t) (hf : Nutree.C01.Fresh t next) :
+    ∃ x, findT next t'.root = some x ∧ x.data = a ∧
+      x.did = (match did? with
+        | some d => d
+        | none => match t.hook with
+          | none => a.hid
+          | some tbl => match tbl.lookup a.obj with
+            | some (some d) => d
+            | _ => a.hid) := by
+  obtain ⟨p, ins, did, hp, hins, hroot, hdid⟩ := Nutree.C01.addData_effect' t t' next parent a before did? kind hr
+  have h' := (Nutree.C01.addData_WF t t' next parent a before did? kind h hf hr).1
+  refine ⟨T.node { id := next, data := a, did := did, kind := if t.typed then some (kind.getD "child") else none } [],
+    (findT_eq_some_iff h'.idsN).2 ⟨?_, rfl⟩, rfl, ?_⟩
+  · rw [hroot]
+    refine mem_flat_modT_new hp (mem_flatL.2 ⟨_, ?_, self_mem_flat _⟩)
+    exact (insertPosition_perm hins p.kids _).mem_iff.2 List.mem_cons_self
+  · show did = _
+    rcases hdid with rfl | ⟨rfl, hc⟩
+    · rfl
+    · unfold Tree.calcId at hc
+      cases hh : t.hook with
+      | none => rw [hh] at hc; cases hc; rfl
+      | some tbl =>
+        rw [hh] at hc
+        simp only at hc ⊢
+        cases hl : tbl.lookup a.obj with
+        | none => rw [hl] at hc; cases hc; rfl
+        | some o =>
+          rw [hl] at hc
+          cases o with
+          | none => cases hc
+          | some d => cases hc; rfl
 
 end Nutree.C02
